@@ -30,6 +30,7 @@ int main(int argc, char **argv) {
     std::string line;
     while (std::getline(std::cin, line)) {
         std::vector<std::string> f = split_ws(line);
+        case_begin(f.empty() ? std::string("?") : f[0], 300);
         if (f.size() < 3) { printf("%s BAD\n", f.empty() ? "?" : f[0].c_str()); continue; }
         const std::string &id = f[0];
         std::vector<uint8_t> in;
@@ -62,6 +63,7 @@ int main(int argc, char **argv) {
                     rok ? (ref.size() == (size_t)r && memcmp(ref.data(), dst, r) == 0 ? "same" : (ref.size() >= (size_t)r && memcmp(ref.data(), dst, r) == 0 ? "prefix" : "differs")) : "err");
         free(src); free(dst);
         fflush(stdout);
+        case_end();
     }
     return 0;
 }
